@@ -1,6 +1,7 @@
 """C15 -- inbound property (see properties.jsonl); parts, oracle and clauses in props/inbound_common.py"""
 from props import inbound_common as B
 from props import sink_common as SC
+from props import C19 as HS
 
 RULE = ("sequences of peer packets (all packet kinds, ids 1..3, QoS 0/1/2, aliases, valid and invalid filters) "
         "interleaved with completions of gated publish handlers (ok / error / negative ack) and of the gated protocol "
@@ -18,8 +19,24 @@ WANT = ("C15",)
 PROPS_FILES = ["C15", "C15sink"]
 
 
+class CodeAtLimits(HS.HsPart):
+    """the cause named when a limit set up by the handshake is exceeded: the handshake engine's cases that probe the
+    inbound packet size and the maximum QoS on MQTT 5 connections -- the DISCONNECT must carry 0x95 / 0x9B (clause 10
+    of the handshake scan; an alias above the announced maximum is "a protocol error", C17, with no dedicated code
+    named by the property)"""
+
+    def py_oracle(self, case, obs):
+        v = HS.py_oracle(case, obs, codes=True)
+        return v if v.startswith("0,10") else "1"
+
+
 def parts(tier, rng):
     out = B.make_parts(tier, rng, WANT)
+    for p in HS.parts(tier, rng):
+        if isinstance(p, HS.HsPart):
+            cases = [c for c in p.cases if any(f.startswith("2,") for f in c.split(";")[3:])]
+            if cases:
+                out.append(CodeAtLimits("code-at-limits-" + p.name, "hs", cases, shards=16, rule=p.rule))
     # a busy endpoint: the DISCONNECT the sink layer writes when an acknowledgement breaks the rules (wrong id, wrong
     # type, nothing outstanding) names an error, never normal disconnection
     for p in SC.make_parts(tier, rng, {15}):
@@ -30,18 +47,22 @@ def parts(tier, rng):
 
 
 def replay_parts(rp):
+    if rp.get("engine") == "hs":
+        return [CodeAtLimits("replay", "hs", [rp["case"]], shards=1)]
     if rp.get("engine", "").startswith("sink"):
         return SC.replay_parts(rp, {15})
     return B.replay_parts(rp, WANT)
 
 
 def known_signature(part, case, impl_obs, oracle):
-    if isinstance(part, SC.SinkPart):
+    if isinstance(part, SC.SinkPart) or isinstance(part, HS.HsPart):
         return None
     return B.known_signature(part, case, impl_obs, oracle)
 
 
 def clause_text(part, oracle):
+    if isinstance(part, HS.HsPart):
+        return HS.clause_text(part, oracle)
     if isinstance(part, SC.SinkPart):
         return SC.clause_text(part, oracle)
     return B.clause_text(part, oracle)
